@@ -518,7 +518,11 @@ class Module:
 # random schema
 # ------------------------------------------------------------------------------------------------
 class SchemaGen:
-    def __init__(self, rng, adversarial=False, state=True, userord=True, constraints=True, defaults=True, choices=True):
+    def __init__(self, rng, adversarial=False, state=True, userord=True, constraints=True, defaults=True, choices=True,
+                 key_filter=None):
+        # key_filter: optional predicate on a Type; list key types and leaf-list types are redrawn until it holds
+        # (None: no restriction, same random stream as before the parameter existed)
+        self.key_filter = key_filter
         self.rng = rng
         self.n = 0
         self.adv = adversarial
@@ -548,6 +552,8 @@ class SchemaGen:
     def leaflist(self, config=True):
         rng = self.rng
         t = rand_type(rng, key=True, adversarial=self.adv)
+        while self.key_filter and not self.key_filter(t):
+            t = rand_type(rng, key=True, adversarial=self.adv)
         userord = self.userord and rng.random() < 0.4
         defaults = []
         minel, maxel = 0, None
@@ -595,7 +601,7 @@ class SchemaGen:
         children = []
         for _ in range(nkeys):
             t = rand_type(rng, key=True, adversarial=self.adv)
-            while isinstance(t, (TEmpty,)):
+            while isinstance(t, (TEmpty,)) or (self.key_filter and not self.key_filter(t)):
                 t = rand_type(rng, key=True, adversarial=self.adv)
             k = SLeaf(self.nm("k"), t, config=cfg)
             keys.append(k.name)
